@@ -1343,6 +1343,33 @@ def _spl_calls(scn):
             r = [unhx(x) for x in row[1 + nk:]]
             par = dict(K=K, m=r[0], n=r[1], tol=r[2], dt=r[3], area=r[4:4 + n], elev=r[4 + n:4 + 2 * n])
             mask, seeds, ops, _ = env_of(last, n)
+            # setter calls applied to the fresh eroder before it erodes (set:n:<v>, set:m:<v>): the
+            # configuration that counts is the one the setters leave; a refused setter ends the call
+            sets = [t for t in call.toks if t.startswith("set:")]
+            if call.O.get("spl", [""])[0] == "err":
+                sets = []      # the constructor itself refused the parameters: no setter ran
+            par["setter_fails"] = []
+            for k, t in enumerate(sets):
+                what, v = t[4], unhx(t[6:])
+                multi_last = any(o.startswith("multi") for o in ops) and last_router(ops).startswith("multi")
+                res = call.O.get("splset%d" % k)
+                if what == "n":
+                    par["n"] = v
+                    want_err = multi_last and abs(v - 1) > EPS
+                    if want_err and res != ["err", "invalid_argument"]:
+                        par["setter_fails"].append(("spl_rejects_multi_nonlinear", "set_slope_exp(%r) on a multiple-direction graph gave %s" % (v, res)))
+                    if not want_err and res != ["ok"]:
+                        par["setter_fails"].append(("spl_accepts_valid_parameters", "set_slope_exp(%r) gave %s" % (v, res)))
+                    if want_err:
+                        par["rejected"] = True
+                else:
+                    par["m"] = v
+                    if res != ["ok"]:
+                        par["setter_fails"].append(("spl_accepts_valid_parameters", "set_area_exp(%r) gave %s" % (v, res)))
+            if sets and not par.get("rejected"):
+                eff = call.O.get("spl_eff")
+                if eff is None or [bits(unhx(x)) for x in eff] != [bits(par["m"]), bits(par["n"])]:
+                    par["setter_fails"].append(("setter_readback", "area_exp() / slope_exp() report %s after the setters, expected %r %r" % (eff, par["m"], par["n"])))
             out.append((call, GraphView(last, n), mask, seeds, ops, par, n))
     return out
 
@@ -1359,6 +1386,9 @@ def _flooded(z, e, recv):
 def c12(scn):
     fails = []
     for call, g, mask, seeds, ops, par, n in _spl_calls(scn):
+        fails.extend(par.get("setter_fails", []))
+        if par.get("rejected"):
+            continue
         multi = any(o.startswith("multi") for o in ops) and last_router(ops).startswith("multi")
         nexp = par["n"]
         if multi and abs(nexp - 1) > EPS:
@@ -1396,7 +1426,8 @@ def c12(scn):
 def c13(scn):
     fails = []
     for call, g, mask, seeds, ops, par, n in _spl_calls(scn):
-        if "erosion" not in call.O or not g.ok:
+        fails.extend(par.get("setter_fails", []))
+        if par.get("rejected") or "erosion" not in call.O or not g.ok:
             continue
         e = [unhx(x) for x in call.O["erosion"]]
         z = par["elev"]
